@@ -255,5 +255,18 @@ Definition wstep (s : wstate) (o : wop) : wstate * list (option N) :=
           w_cache := filter (fun e => negb (N.eqb (fst (fst e)) w)) (w_cache s) |}, [])
   end.
 
+(* ---------- the collector's reload handler (collect.go reloadConfigs) ----------
+   It clears the factory registry (with the new rules in force) and sends every worker a reload
+   signal.  A worker can run its reload branch (WWorkerReload) only once it has been signalled.
+   [early] is what the workers do between the handler's two steps, [late] what they do after both.
+   clear_first = true : ClearDynsamplers, then the signals — no worker can have handled the signal
+                        before the registry is cleared;
+   clear_first = false: signals, then ClearDynsamplers — [early] may contain a worker's reload. *)
+Definition reload_schedule (clear_first : bool) (c : econfig) (early late : list wop) : list wop :=
+  if clear_first then WReload c :: early ++ late else early ++ WReload c :: late.
+
+(* the order found in the source *)
+Definition real_reload_schedule := reload_schedule GenC12.reload_clear_before_signal.
+
 Fixpoint wrun (s : wstate) (ops : list wop) : list (list (option N)) :=
   match ops with [] => [] | o :: r => let '(s', out) := wstep s o in out :: wrun s' r end.
